@@ -112,16 +112,17 @@ func c08ReadRequest(conn net.Conn) (*requestf.RequestPacket, error) {
 // ---------------------------------------------------------------- cases
 
 type c08Ev struct {
-	Kind   string `json:"k"` // reg | pkt | end
-	K      int    `json:"c"` // caller (reg, end)
-	ID     int32  `json:"id"`
-	Pay    uint64 `json:"pay"` // pkt: payload; end: payload got (if Got)
-	Oneway bool   `json:"ow,omitempty"`
-	Got    bool   `json:"got,omitempty"`
+	Kind   string  `json:"k"` // reg | pkt | end | snap
+	K      int     `json:"c"` // caller (reg, end)
+	ID     int32   `json:"id"`
+	Pay    uint64  `json:"pay"` // pkt: payload; end: payload got (if Got)
+	Oneway bool    `json:"ow,omitempty"`
+	Got    bool    `json:"got,omitempty"`
+	IDs    []int32 `json:"ids,omitempty"` // snap: ids found in the pending-reply table at that moment
 }
 
 type c08Case struct {
-	Kind string `json:"kind"` // seq | mt | trace
+	Kind string `json:"kind"` // seq | mt | mtbig | trace
 	// seq / mt
 	Start   int32   `json:"start"`
 	Calls   int     `json:"calls"`
@@ -129,13 +130,16 @@ type c08Case struct {
 	IDs     []int32 `json:"ids"`
 	Final   int32   `json:"final"`
 	// trace
-	N         int      `json:"n"`
+	N         int      `json:"n"`      // callers per round
+	Rounds    int      `json:"rounds"` // rounds on the same proxy / connection, one after the other (0 = 1)
+	Pending   []int32  `json:"pending"` // observed: ids left in the pending-reply table after the last round
 	SetID     bool     `json:"set_id"` // set the counter to Start before the scenario
 	Acts      []string `json:"acts"`   // per caller
 	Order     []int    `json:"order"`  // order in which the server handles the callers
 	TimeoutMs int      `json:"timeout_ms"`
 	Events    []c08Ev  `json:"events"`
 	Class     string   `json:"class"`
+	Skipped   bool     `json:"skipped,omitempty"` // not run (an earlier genRequestID case hung)
 }
 
 const c08Poison = 0xFFFFFFFF
@@ -157,16 +161,32 @@ func c08NextObj(prefix string) string {
 	return fmt.Sprintf("Verif.%sSrv%d.Obj", prefix, c08ObjSeq)
 }
 
+// c08GenStuck is set when a genRequestID case did not come back: its goroutines still spin on the process-wide counter,
+// so the remaining cases of this run are skipped (the failure is reported; a replay runs the case alone).
+var c08GenStuck bool
+
 func c08RunGen(c *c08Case) []Failure {
+	done := make(chan []Failure, 1)
+	go func() { done <- c08RunGenBody(c) }()
+	select {
+	case fs := <-done:
+		return fs
+	case <-time.After(60 * time.Second):
+		c08GenStuck = true
+		c.Skipped = true
+		return []Failure{{Sig: "genRequestID/does-not-return", Desc: fmt.Sprintf("genRequestID: %d calls on %d threads from counter %d did not finish within 60 s (each call is one CAS and at most two increments)", c.Calls, c.Threads, c.Start)}}
+	}
+}
+
+func c08RunGenBody(c *c08Case) []Failure {
 	sp := c08Proxy("Verif.C08Gen.Obj", 1)
 	var fs []Failure
+	var ids []int32
 	if c.Kind == "seq" {
 		tars.VerifC08SetMsgID(c.Start)
-		c.IDs = nil
 		for i := 0; i < c.Calls; i++ {
-			c.IDs = append(c.IDs, tars.VerifC08GenRequestID(sp))
+			ids = append(ids, tars.VerifC08GenRequestID(sp))
 		}
-		c.Final = tars.VerifC08MsgID()
 	} else {
 		tars.VerifC08SetMsgID(c.Start)
 		per := c.Calls / c.Threads
@@ -187,25 +207,37 @@ func c08RunGen(c *c08Case) []Failure {
 		}
 		close(start)
 		wg.Wait()
-		c.IDs = nil
 		for _, l := range out {
-			c.IDs = append(c.IDs, l...)
+			ids = append(ids, l...)
 		}
-		c.Final = tars.VerifC08MsgID()
 	}
-	seen := map[int32]bool{}
-	for _, id := range c.IDs {
+	c.Final = tars.VerifC08MsgID()
+	if c.Kind != "mtbig" { // the large batches are checked here only and not kept in the case
+		c.IDs = ids
+	}
+	seen := make(map[int32]bool, len(ids))
+	for _, id := range ids {
 		if id == 0 {
 			fs = append(fs, Failure{Sig: "genRequestID/zero-id", Desc: fmt.Sprintf("genRequestID returned 0 (counter started at %d, %d calls, %d threads)", c.Start, c.Calls, c.Threads)})
 			break
 		}
 	}
-	for _, id := range c.IDs {
+	for _, id := range ids {
 		if seen[id] {
-			fs = append(fs, Failure{Sig: "genRequestID/duplicate-id", Desc: fmt.Sprintf("genRequestID returned %d twice within %d allocations (counter started at %d, %d threads)", id, len(c.IDs), c.Start, c.Threads)})
+			fs = append(fs, Failure{Sig: "genRequestID/duplicate-id", Desc: fmt.Sprintf("genRequestID returned %d twice within %d allocations (counter started at %d, %d threads)", id, len(ids), c.Start, c.Threads)})
 			break
 		}
 		seen[id] = true
+	}
+	if c.Kind == "mtbig" {
+		// n calls perform n increments, plus one for each time the counter passes 0; a CAS at the threshold skips ahead.
+		// Away from both the counter must have advanced by exactly n.
+		maxi, n, st := int64(tars.VerifC08MaxInt32()), int64(len(ids)), int64(c.Start)
+		if (st < 0 && st+n < 0) || (st >= 0 && st+n < maxi) {
+			if int64(c.Final) != st+n {
+				fs = append(fs, Failure{Sig: "genRequestID/lost-or-extra-increment", Desc: fmt.Sprintf("%d calls on %d threads from counter %d (no wrap, no zero in reach) left the counter at %d, expected %d", n, c.Threads, c.Start, c.Final, st+n)})
+			}
+		}
 	}
 	return fs
 }
@@ -240,13 +272,18 @@ func c08RunTrace(c *c08Case) []Failure {
 		}
 	})
 	defer c08SetHook(obj, nil)
+	rounds := c.Rounds
+	if rounds < 1 {
+		rounds = 1
+	}
+	total := c.N * rounds
 
 	type seen struct {
 		k    int
 		id   int32
 		conn net.Conn
 	}
-	reqCh := make(chan seen, c.N+8)
+	reqCh := make(chan seen, total+8)
 	var wmu sync.Mutex
 	var conns []net.Conn
 	var cmu sync.Mutex
@@ -282,7 +319,7 @@ func c08RunTrace(c *c08Case) []Failure {
 		cmu.Unlock()
 	}()
 
-	ended := make([]chan struct{}, c.N)
+	ended := make([]chan struct{}, total)
 	for i := range ended {
 		ended[i] = make(chan struct{})
 	}
@@ -302,133 +339,177 @@ func c08RunTrace(c *c08Case) []Failure {
 	if c.SetID {
 		tars.VerifC08SetMsgID(c.Start)
 	}
-	// callers
 	type outc struct {
 		got bool
 		pay uint64
 	}
-	outs := make([]outc, c.N)
-	var wg sync.WaitGroup
-	startCh := make(chan struct{})
-	for k := 0; k < c.N; k++ {
-		wg.Add(1)
-		go func(k int) {
-			defer wg.Done()
-			to := 8 * time.Second
-			if c.Acts[k] == "none" || c.Acts[k] == "late" {
-				to = time.Duration(c.TimeoutMs) * time.Millisecond
-			}
-			<-startCh
-			ctx, cancel := context.WithTimeout(context.Background(), to)
-			defer cancel()
-			var resp requestf.ResponsePacket
-			err := sp.TarsInvoke(ctx, 0, "echo", c08Payload(uint32(k), 0), nil, nil, &resp)
-			o := outc{}
-			if err == nil {
-				b := tools.Int8ToByte(resp.SBuffer)
-				if len(b) == 8 {
-					o = outc{true, binary.BigEndian.Uint64(b)}
-				} else {
-					o = outc{true, uint64(c08Poison)<<32 | 0xBAD}
-				}
-			}
-			outs[k] = o
-			log.add(c08Ev{Kind: "end", K: k, Got: o.got, Pay: o.pay})
-			close(ended[k])
-		}(k)
-	}
-	close(startCh)
-
-	// server script
+	outs := make([]outc, total)
 	reqs := map[int]seen{}
-	deadline := time.After(4 * time.Second)
-collect:
-	for len(reqs) < c.N {
-		select {
-		case s := <-reqCh:
-			reqs[s.k] = s
-		case <-deadline:
-			break collect
-		}
-	}
+	var fs []Failure
 	var lateWg sync.WaitGroup
 	var doneList []int // callers known to have returned
-	for _, k := range c.Order {
-		s, ok := reqs[k]
-		if !ok {
-			continue
-		}
-		genuine := func() { send(s.conn, s.id, c08Payload(uint32(k), 0), false) }
-		switch c.Acts[k] {
-		case "reply":
-			genuine()
-			select { // remember completed callers for the "already completed" forgery
-			case <-ended[k]:
-				doneList = append(doneList, k)
-			case <-time.After(20 * time.Millisecond):
-			}
-		case "dup":
-			genuine()
-			send(s.conn, s.id, c08Payload(uint32(k), 1), false)
-			send(s.conn, s.id, c08Payload(uint32(k), 2), false)
-		case "none":
-		case "late":
-			lateWg.Add(1)
-			go func(k int, s seen) {
-				defer lateWg.Done()
-				select {
-				case <-ended[k]:
-				case <-time.After(6 * time.Second):
+	patient := func(k int) bool { return c.Acts[k] != "none" && c.Acts[k] != "late" }
+
+	for round := 0; round < rounds; round++ {
+		lo, hi := round*c.N, (round+1)*c.N
+		// callers of this round
+		var wg sync.WaitGroup
+		startCh := make(chan struct{})
+		for k := lo; k < hi; k++ {
+			wg.Add(1)
+			go func(k int) {
+				defer wg.Done()
+				to := 8 * time.Second
+				if !patient(k) {
+					to = time.Duration(c.TimeoutMs) * time.Millisecond
 				}
-				send(s.conn, s.id, c08Payload(uint32(k), 7), false)
-			}(k, s)
-		case "f0": // id 0 (push) carrying a poisoned payload, then the genuine reply
-			send(s.conn, 0, c08Payload(c08Poison, uint32(k)), false)
-			genuine()
-		case "funk": // ids nobody registered
-			send(s.conn, s.id^0x40000000, c08Payload(c08Poison, uint32(k)), false)
-			send(s.conn, s.id^0x20000000, c08Payload(c08Poison, uint32(k)), false)
-			genuine()
-		case "oneway": // right id, one-way packet type: dropped by Recv
-			send(s.conn, s.id, c08Payload(c08Poison, uint32(k)), true)
-			genuine()
-		case "fdone": // id of a call that has already returned
-			var j = -1
-			for _, d := range doneList {
-				j = d
-			}
-			if j < 0 { // wait for any "reply" caller handled earlier
-				for _, kk := range c.Order {
-					if kk == k {
-						break
+				<-startCh
+				ctx, cancel := context.WithTimeout(context.Background(), to)
+				defer cancel()
+				var resp requestf.ResponsePacket
+				err := sp.TarsInvoke(ctx, 0, "echo", c08Payload(uint32(k), 0), nil, nil, &resp)
+				o := outc{}
+				if err == nil {
+					b := tools.Int8ToByte(resp.SBuffer)
+					if len(b) == 8 {
+						o = outc{true, binary.BigEndian.Uint64(b)}
+					} else {
+						o = outc{true, uint64(c08Poison)<<32 | 0xBAD}
 					}
-					if c.Acts[kk] == "reply" || c.Acts[kk] == "dup" {
-						select {
-						case <-ended[kk]:
-							j = kk
-						case <-time.After(2 * time.Second):
-						}
-						if j >= 0 {
+				}
+				outs[k] = o
+				log.add(c08Ev{Kind: "end", K: k, Got: o.got, Pay: o.pay})
+				close(ended[k])
+			}(k)
+		}
+		close(startCh)
+
+		// server script: collect the round's requests, then handle them in the scripted order
+		deadline := time.After(4 * time.Second)
+		have := 0
+	collect:
+		for have < c.N {
+			select {
+			case s := <-reqCh:
+				if _, dup := reqs[s.k]; !dup && s.k >= lo && s.k < hi {
+					have++
+				}
+				reqs[s.k] = s
+			case <-deadline:
+				break collect
+			}
+		}
+		// snapshot of the pending-reply table while the round's calls are outstanding: a call whose request the server
+		// has seen and that cannot end yet (8 s deadline, nothing sent to it) must have its entry under its own id
+		snap := tars.VerifC08PendingIDs(sp)
+		log.add(c08Ev{Kind: "snap", IDs: snap})
+		inSnap := map[int32]bool{}
+		for _, id := range snap {
+			inSnap[id] = true
+		}
+		// (callers that race on a proxy's first call may each create an adapter and connection of their own, of which the
+		// endpoint manager keeps one; the accessor sees that one, so the monitor applies when the whole round came
+		// through one connection)
+		oneConn := true
+		for k := lo; k < hi; k++ {
+			if s, ok := reqs[k]; ok && s.conn != reqs[lo].conn {
+				oneConn = false
+			}
+		}
+		if _, ok := reqs[lo]; !ok {
+			oneConn = false
+		}
+		for k := lo; k < hi && oneConn; k++ {
+			if s, ok := reqs[k]; ok && patient(k) && !inSnap[s.id] {
+				fs = append(fs, Failure{Sig: "call/outstanding-call-has-no-entry", Desc: fmt.Sprintf("caller %d is outstanding with request id %d (request seen by the server, no reply sent, 8 s deadline) but the pending-reply table holds only %v", k, s.id, snap)})
+				break
+			}
+		}
+		for _, k := range c.Order {
+			if k < lo || k >= hi {
+				continue
+			}
+			s, ok := reqs[k]
+			if !ok {
+				continue
+			}
+			genuine := func() { send(s.conn, s.id, c08Payload(uint32(k), 0), false) }
+			switch c.Acts[k] {
+			case "reply":
+				genuine()
+				select { // remember completed callers for the "already completed" forgery
+				case <-ended[k]:
+					doneList = append(doneList, k)
+				case <-time.After(20 * time.Millisecond):
+				}
+			case "dup":
+				genuine()
+				send(s.conn, s.id, c08Payload(uint32(k), 1), false)
+				send(s.conn, s.id, c08Payload(uint32(k), 2), false)
+			case "none":
+			case "late":
+				lateWg.Add(1)
+				go func(k int, s seen) {
+					defer lateWg.Done()
+					select {
+					case <-ended[k]:
+					case <-time.After(6 * time.Second):
+					}
+					send(s.conn, s.id, c08Payload(uint32(k), 7), false)
+				}(k, s)
+			case "f0": // id 0 (push) carrying a poisoned payload, then the genuine reply
+				send(s.conn, 0, c08Payload(c08Poison, uint32(k)), false)
+				genuine()
+			case "funk": // ids nobody registered
+				send(s.conn, s.id^0x40000000, c08Payload(c08Poison, uint32(k)), false)
+				send(s.conn, s.id^0x20000000, c08Payload(c08Poison, uint32(k)), false)
+				genuine()
+			case "oneway": // right id, one-way packet type: dropped by Recv
+				send(s.conn, s.id, c08Payload(c08Poison, uint32(k)), true)
+				genuine()
+			case "fdone": // id of a call that has already returned (this round or an earlier one)
+				var j = -1
+				for _, d := range doneList {
+					j = d
+				}
+				if j < 0 { // wait for any "reply" caller handled earlier
+					for _, kk := range c.Order {
+						if kk == k {
 							break
 						}
+						if _, ok := reqs[kk]; ok && (c.Acts[kk] == "reply" || c.Acts[kk] == "dup") {
+							select {
+							case <-ended[kk]:
+								j = kk
+							case <-time.After(2 * time.Second):
+							}
+							if j >= 0 {
+								break
+							}
+						}
 					}
 				}
+				if j >= 0 {
+					send(s.conn, reqs[j].id, c08Payload(c08Poison, uint32(k)), false)
+				}
+				genuine()
 			}
-			if j >= 0 {
-				send(s.conn, reqs[j].id, c08Payload(c08Poison, uint32(k)), false)
+		}
+		wg.Wait() // the next round starts while this round's late replies are still to come
+		for k := lo; k < hi; k++ {
+			if _, ok := reqs[k]; ok && (c.Acts[k] == "dup" || c.Acts[k] == "reply") {
+				doneList = append(doneList, k)
 			}
-			genuine()
 		}
 	}
-	wg.Wait()
 	lateWg.Wait()
 	time.Sleep(30 * time.Millisecond) // let the receivers of the late packets run
+	c.Pending = tars.VerifC08PendingIDs(sp)
 	log.mu.Lock()
 	c.Events = append([]c08Ev(nil), log.ev...)
 	log.mu.Unlock()
 
 	// ---- L3 monitors
-	var fs []Failure
 	active := map[int32]int{}
 	idOf := map[int]int32{}
 	for _, e := range c.Events {
@@ -446,24 +527,24 @@ collect:
 			delete(active, idOf[e.K])
 		}
 	}
-	for k := 0; k < c.N; k++ {
+	for k := 0; k < total; k++ {
 		o := outs[k]
 		if o.got && uint32(o.pay>>32) != uint32(k) {
-			fs = append(fs, Failure{Sig: "call/foreign-reply-delivered", Desc: fmt.Sprintf("caller %d (act %s) received payload %016x, which is not its own (forged id 0 / unknown id / completed id / one-way packets and other callers' replies must reach nobody else)", k, c.Acts[k], o.pay)})
+			fs = append(fs, Failure{Sig: "call/foreign-reply-delivered", Desc: fmt.Sprintf("caller %d (act %s) received payload %016x, which is not its own (forged id 0 / unknown id / completed id / one-way packets, other callers' replies and replies to earlier calls must reach nobody else)", k, c.Acts[k], o.pay)})
 		}
-		if o.got && (c.Acts[k] == "none" || c.Acts[k] == "late") {
+		if o.got && !patient(k) {
 			fs = append(fs, Failure{Sig: "call/reply-without-source", Desc: fmt.Sprintf("caller %d (act %s) received a reply although none had been sent before it returned", k, c.Acts[k])})
 		}
 		_, seenReq := reqs[k]
-		if !o.got && seenReq && c.Acts[k] != "none" && c.Acts[k] != "late" {
+		if !o.got && seenReq && patient(k) {
 			fs = append(fs, Failure{Sig: "call/matching-reply-not-delivered", Desc: fmt.Sprintf("caller %d (act %s, id %d): the server sent the matching reply seconds before the 8 s deadline but the call ended without it", k, c.Acts[k], reqs[k].id)})
 		}
 	}
-	if ids := tars.VerifC08PendingIDs(sp); len(ids) != 0 {
-		fs = append(fs, Failure{Sig: "call/pending-entry-left", Desc: fmt.Sprintf("after all %d callers returned the pending-reply table still holds ids %v", c.N, ids)})
+	if len(c.Pending) != 0 {
+		fs = append(fs, Failure{Sig: "call/pending-entry-left", Desc: fmt.Sprintf("after all %d callers returned the pending-reply table still holds ids %v", total, c.Pending)})
 	}
 	if q := tars.VerifC08QueueLen(sp); q != 0 {
-		fs = append(fs, Failure{Sig: "call/queueLen-not-restored", Desc: fmt.Sprintf("after all %d callers returned queueLen = %d", c.N, q)})
+		fs = append(fs, Failure{Sig: "call/queueLen-not-restored", Desc: fmt.Sprintf("after all %d callers returned queueLen = %d", total, q)})
 	}
 	return fs
 }
@@ -471,8 +552,9 @@ collect:
 // c08Labels turns the event log into a label sequence of Conc/Pending.v plus the per-call observed outcomes
 // (calls numbered in registration order). Internal steps (lookup, hand-over, timeout) are placed where the machine can
 // take them; a log the machine cannot follow is rejected by accepts.
-func c08Labels(evs []c08Ev) (string, string) {
+func c08Labels(evs []c08Ev) (string, string, string) {
 	var ls []string
+	var snaps []string
 	idx := map[int]int{} // caller -> call number
 	idOf := map[int]int32{}
 	type rcv struct {
@@ -496,6 +578,8 @@ func c08Labels(evs []c08Ev) (string, string) {
 		case "pkt":
 			ls = append(ls, fmt.Sprintf("LPacket (mkp (%d)%%Z %d%%N %s)", e.ID, e.Pay, coqBool(e.Oneway)))
 			rs = append(rs, rcv{id: e.ID, pay: e.Pay, ow: e.Oneway})
+		case "snap":
+			snaps = append(snaps, fmt.Sprintf("(%d%%nat, %s)", len(ls), c08Zs(e.IDs)))
 		case "end":
 			ci, ok := idx[e.K]
 			if !ok { // never registered (call failed before the filter): not part of the table's history
@@ -533,7 +617,7 @@ func c08Labels(evs []c08Ev) (string, string) {
 			ls = append(ls, fmt.Sprintf("LLookup %d", i))
 		}
 	}
-	return "[" + strings.Join(ls, "; ") + "]", "[" + strings.Join(outs, "; ") + "]"
+	return "[" + strings.Join(ls, "; ") + "]", "[" + strings.Join(outs, "; ") + "]", "[" + strings.Join(snaps, "; ") + "]"
 }
 
 func c08Zs(l []int32) string {
@@ -545,14 +629,19 @@ func c08Zs(l []int32) string {
 }
 
 func c08Coq(c *c08Case) string {
+	if c.Skipped {
+		return ""
+	}
 	switch c.Kind {
+	case "mtbig":
+		return ""
 	case "seq":
 		return fmt.Sprintf("KSeq ((%d)%%Z, %s, (%d)%%Z)", c.Start, c08Zs(c.IDs), c.Final)
 	case "mt":
 		return fmt.Sprintf("KMt ((%d)%%Z, %s, (%d)%%Z)", c.Start, c08Zs(c.IDs), c.Final)
 	}
-	ls, outs := c08Labels(c.Events)
-	return fmt.Sprintf("KTrace (%s, %s)", ls, outs)
+	ls, outs, snaps := c08Labels(c.Events)
+	return fmt.Sprintf("KTrace (%s, %s, %s, %s)", ls, outs, snaps, c08Zs(c.Pending))
 }
 
 func c08Gen(tier string, rng *rand.Rand) []c08Case {
@@ -589,6 +678,21 @@ func c08Gen(tier string, rng *rand.Rand) []c08Case {
 		}
 		cs = append(cs, c08Case{Kind: "mt", Start: int32(s), Calls: threads * per, Threads: threads, Class: fmt.Sprintf("mt/%s/t%d", c08Zone(s, maxi), threads)})
 	}
+	// large concurrent batches (monitor only: non-zero, pairwise distinct, counter inside the reachable window)
+	nbig := 3
+	if tier == "thorough" {
+		nbig = 12
+	}
+	for i := 0; i < nbig; i++ {
+		threads := []int{16, 8, 32, 4}[i%4]
+		per := 20000 + rng.Intn(20000)
+		base := []int64{maxi, 0, mini}[i%3]
+		s := base - int64(rng.Intn(threads*per))
+		if s < mini {
+			s = mini + int64(rng.Intn(5))
+		}
+		cs = append(cs, c08Case{Kind: "mtbig", Start: int32(s), Calls: threads * per, Threads: threads, Class: fmt.Sprintf("mtbig/%s/t%d", c08Zone(s, maxi), threads)})
+	}
 	// scripted-server scenarios
 	sizes := []int{1, 1, 1, 4, 4, 4, 4, 4, 32, 32, 32, 256, 256}
 	if tier == "thorough" {
@@ -599,24 +703,39 @@ func c08Gen(tier string, rng *rand.Rand) []c08Case {
 	kinds := []string{"reply", "dup", "none", "late", "f0", "funk", "oneway", "fdone"}
 	for si, n := range sizes {
 		c := c08Case{Kind: "trace", N: n, TimeoutMs: 150 + rng.Intn(200)}
+		// rounds on the same proxy and connection: replies to one round's calls (late, duplicated) arrive during the next
+		c.Rounds = 1 + rng.Intn(3)
+		if n >= 256 {
+			c.Rounds = 1 + rng.Intn(2)
+		}
+		if si == 0 || si == 3 {
+			c.Rounds = 3
+		}
 		used := map[string]bool{}
-		for k := 0; k < n; k++ {
+		for k := 0; k < n*c.Rounds; k++ {
 			a := kinds[rng.Intn(len(kinds))]
 			if n == 1 {
-				a = kinds[(si*3+rng.Intn(3))%len(kinds)]
+				a = kinds[(si*3+rng.Intn(3)+k)%len(kinds)]
 			}
 			if rng.Intn(3) == 0 {
 				a = "reply"
 			}
+			if k < n && c.Rounds > 1 && rng.Intn(3) == 0 {
+				a = "dup" // duplicates in a round that is followed by another one
+			}
 			c.Acts = append(c.Acts, a)
 			used[a] = true
 		}
-		c.Order = rng.Perm(n)
+		for r := 0; r < c.Rounds; r++ {
+			for _, k := range rng.Perm(n) {
+				c.Order = append(c.Order, r*n+k)
+			}
+		}
 		switch si % 4 { // where the ids of this scenario lie
 		case 1:
-			c.SetID, c.Start = true, int32(-1-rng.Intn(n+1)) // crosses 0
+			c.SetID, c.Start = true, int32(-1-rng.Intn(n*c.Rounds+1)) // crosses 0
 		case 2:
-			c.SetID, c.Start = true, int32(maxi-int64(rng.Intn(n+2))) // crosses the wrap threshold
+			c.SetID, c.Start = true, int32(maxi-int64(rng.Intn(n*c.Rounds+2))) // crosses the wrap threshold
 		case 3:
 			c.SetID, c.Start = true, int32(mini+int64(rng.Intn(1000))) // negative ids
 		}
@@ -625,7 +744,7 @@ func c08Gen(tier string, rng *rand.Rand) []c08Case {
 			ks = append(ks, a)
 		}
 		sort.Strings(ks)
-		c.Class = fmt.Sprintf("trace/n%d/ids%d/%s", n, si%4, strings.Join(ks, "+"))
+		c.Class = fmt.Sprintf("trace/n%d/r%d/ids%d/%s", n, c.Rounds, si%4, strings.Join(ks, "+"))
 		cs = append(cs, c)
 	}
 	return cs
@@ -660,6 +779,10 @@ func init() {
 			RunAll: func(cs []c08Case) [][]Failure {
 				fails := make([][]Failure, len(cs))
 				for i := range cs { // the id counter is process-global: one case at a time
+					if c08GenStuck {
+						cs[i].Skipped = true
+						continue
+					}
 					if cs[i].Kind == "trace" {
 						fails[i] = c08RunTrace(&cs[i])
 					} else {
